@@ -82,7 +82,30 @@ theorem runToCompletion_queue_empty (fuel : Nat) (ev : Match.Ev) (s s' : VM) (u 
   simp only [bind] at h
   obtain ⟨_, s1, _, h2⟩ := bind_ok h
   obtain ⟨_, s2, _, h3⟩ := bind_ok h2
-  exact mainLoop_queue_empty fuel [] s2 s' u h3
+  obtain ⟨_, s3, h4, h5⟩ := bind_ok h3
+  have hq := mainLoop_queue_empty fuel [] s2 s3 () h4
+  simp only [getIx, get, getThe, MonadStateOf.get, EStateM.get, EStateM.bind, bind, pure, EStateM.pure] at h5
+  split at h5
+  · simp [throw, throwThe, MonadExceptOf.throw, EStateM.throw] at h5
+  · cases h5; exact hq
+
+/-- the exit assertion of the model: a normal return implies that no instance is STOPPING -/
+theorem runToCompletion_noStopping (fuel : Nat) (ev : Match.Ev) (s s' : VM) (u : Unit)
+    (h : runToCompletion fuel ev s = .ok u s') : NoStopping s'.ixs.ix := by
+  unfold runToCompletion at h
+  simp only [bind] at h
+  obtain ⟨_, s1, _, h2⟩ := bind_ok h
+  obtain ⟨_, s2, _, h3⟩ := bind_ok h2
+  obtain ⟨_, s3, _, h5⟩ := bind_ok h3
+  simp only [getIx, get, getThe, MonadStateOf.get, EStateM.get, EStateM.bind, bind, pure, EStateM.pure] at h5
+  split at h5
+  · simp [throw, throwThe, MonadExceptOf.throw, EStateM.throw] at h5
+  · rename_i hns
+    cases h5
+    intro i hi hst
+    apply hns
+    simp only [List.any_eq_true, decide_eq_true_eq]
+    exact ⟨i, hi, hst⟩
 
 end NemoVerif.CoreVM
 
@@ -94,16 +117,16 @@ theorem indexOK_replayR : ∀ (rlog : List Op), AllGuardsR rlog → IndexOK (rep
   | [], _ => indexOK_init
   | op :: rest, h => indexOK_step (indexOK_replayR rest h.1) op h.2
 
-/-- the index component of ANY CoreVM state satisfies the invariant as long as its `ok` flag is set -/
-theorem indexOK_of_vm (s : VM) (hok : s.ixs.ok = true) : IndexOK s.ixs.ix := by
-  rw [s.ixs.h]; exact indexOK_replayR _ (s.ixs.hok hok)
+/-- the index component of ANY CoreVM state satisfies the invariant -/
+theorem indexOK_of_vm (s : VM) : IndexOK s.ixs.ix := by
+  rw [s.ixs.h]; exact indexOK_replayR _ s.ixs.hok
 
 theorem noPos_replayR : ∀ (rlog : List Op), AllGuardsR rlog → NoPos (replayR rlog)
   | [], _ => noPos_init
   | op :: rest, h => noPos_step (noPos_replayR rest h.1) op h.2
 
-theorem noPos_of_vm (s : VM) (hok : s.ixs.ok = true) : NoPos s.ixs.ix := by
-  rw [s.ixs.h]; exact noPos_replayR _ (s.ixs.hok hok)
+theorem noPos_of_vm (s : VM) : NoPos s.ixs.ix := by
+  rw [s.ixs.h]; exact noPos_replayR _ s.ixs.hok
 
 theorem mapsConsistent_replayR : ∀ (rlog : List Op), MapsConsistent (replayR rlog)
   | [] => indexOK_init.maps
